@@ -301,6 +301,7 @@ fn run_case(case: &Case) -> Obs {
     let mut created: Vec<std::path::PathBuf> = Vec::new();
     let dir = case.dir.as_ref().map(|d| std::path::PathBuf::from(String::from_utf8_lossy(d).to_string()));
     let mut fifo_flags: Vec<(std::path::PathBuf, Arc<AtomicBool>, Arc<AtomicBool>)> = Vec::new();
+    let mut fifo_passed: Vec<Arc<AtomicBool>> = Vec::new();
     let mut efifo_stats: Vec<(Arc<AtomicU64>, Arc<AtomicBool>, Arc<AtomicBool>)> = Vec::new();
     if let Some(dir) = &dir {
         let _ = std::fs::create_dir_all(dir);
@@ -319,17 +320,20 @@ fn run_case(case: &Case) -> Obs {
             assert!(st.success());
             let opened = Arc::new(AtomicBool::new(false));
             let probing = Arc::new(AtomicBool::new(false));
+            let passed = Arc::new(AtomicBool::new(false));
             {
-                let (p2, opened, probing) = (p.clone(), opened.clone(), probing.clone());
+                let (p2, opened, probing, passed) = (p.clone(), opened.clone(), probing.clone(), passed.clone());
                 std::thread::spawn(move || {
                     // blocks until somebody opens the FIFO for reading
                     let f = std::fs::OpenOptions::new().write(true).open(&p2);
                     if f.is_ok() && !probing.load(Ordering::SeqCst) {
                         opened.store(true, Ordering::SeqCst);
                     }
+                    passed.store(true, Ordering::SeqCst);
                     // dropping f gives the reader EOF
                 });
             }
+            fifo_passed.push(passed);
             fifo_flags.push((p.clone(), opened, probing));
             created.push(p);
         }
@@ -478,8 +482,14 @@ fn run_case(case: &Case) -> Obs {
             if !was_opened {
                 probing.store(true, Ordering::SeqCst);
                 use std::os::unix::fs::OpenOptionsExt;
-                let _ = std::fs::OpenOptions::new().read(true).custom_flags(0o4000).open(p);
-                std::thread::sleep(Duration::from_millis(1));
+                let rd = std::fs::OpenOptions::new().read(true).custom_flags(0o4000).open(p);
+                // hold the read end until the writer thread is through its open(): it must never meet a FIFO of a later case
+                let t0 = Instant::now();
+                let idx = fifo_flags.iter().position(|x| &x.0 == p).unwrap_or(0);
+                while !fifo_passed[idx].load(Ordering::SeqCst) && t0.elapsed() < Duration::from_secs(5) {
+                    std::thread::sleep(Duration::from_millis(1));
+                }
+                drop(rd);
             }
             lines.push(format!("fifo {}", was_opened as u8));
         }
@@ -492,14 +502,20 @@ fn run_case(case: &Case) -> Obs {
             ));
         }
         for (i, (p, _)) in case.efifos.iter().enumerate() {
-            // unblock a feeder that nobody ever opened
+            // unblock a feeder that nobody ever opened: hold a read end until the feeder thread has got through its open()
+            // (it may not even have been scheduled yet), so that it can never open a FIFO a later case creates under this name
             if !efifo_stats[i].1.load(Ordering::SeqCst) {
                 use std::os::unix::fs::OpenOptionsExt;
                 if let Some(dir) = &dir {
-                    let _ = std::fs::OpenOptions::new()
+                    let rd = std::fs::OpenOptions::new()
                         .read(true)
                         .custom_flags(0o4000)
                         .open(dir.join(String::from_utf8_lossy(p).to_string()));
+                    let t0 = Instant::now();
+                    while !efifo_stats[i].1.load(Ordering::SeqCst) && t0.elapsed() < Duration::from_secs(5) {
+                        std::thread::sleep(Duration::from_millis(1));
+                    }
+                    drop(rd);
                 }
             }
         }
